@@ -116,24 +116,34 @@ class World:
         if k == "list":
             inner = self.to_py(t[1])
             sp = t[2]
+            if sp >= 4:
+                # bare spellings (only with Any elements): no type argument at all
+                import collections.abc
+                return {4: list, 5: List, 6: typing.Sequence, 7: typing.MutableSequence}[sp]      # (bare collections.abc.Sequence has no hook: 'Unsupported type', not generated)
             return {0: List[inner], 1: list[inner], 2: Sequence[inner], 3: MutableSequence[inner]}[sp]
         if k == "tuphom":
             inner = self.to_py(t[1])
+            if t[2] >= 2:
+                return {2: tuple, 3: Tuple}[t[2]]          # bare (Any elements)
             return Tuple[inner, ...] if t[2] == 0 else tuple[inner, ...]
         if k == "tuple":
             return Tuple[tuple(self.to_py(x) for x in t[1])] if t[1] else Tuple[()]
         if k == "set":
             inner = self.to_py(t[1])
+            if t[2] >= 3:
+                return {3: set, 4: typing.Set, 5: typing.MutableSet}[t[2]]       # bare (Any elements)
             return {0: Set[inner], 1: set[inner], 2: MutableSet[inner]}[t[2]]
         if k == "fset":
             inner = self.to_py(t[1])
+            if t[2] >= 2:
+                return {2: frozenset, 3: FrozenSet}[t[2]]          # bare (Any elements)
             return FrozenSet[inner] if t[2] == 0 else frozenset[inner]
         if k == "dict":
             kt, vt = self.to_py(t[1]), self.to_py(t[2])
             if t[3] >= 4:
                 # bare spellings (only generated for Any keys and values): no type arguments at all
                 import collections.abc
-                return {4: Mapping, 5: MutableMapping, 6: dict, 7: collections.abc.Mapping, 8: collections.abc.MutableMapping}[t[3]]
+                return {4: typing.Mapping, 5: typing.MutableMapping, 6: dict, 7: collections.abc.Mapping, 8: collections.abc.MutableMapping}[t[3]]
             return {0: Dict[kt, vt], 1: dict[kt, vt], 2: Mapping[kt, vt], 3: MutableMapping[kt, vt]}[t[3]]
         if k == "opt":
             return Optional[self.to_py(t[1])]
@@ -559,7 +569,7 @@ def gen_value(w: World, t, depth: int):
     if k in ("set", "fset"):
         vals = []
         for _ in range(size()):
-            v = gen_value(w, t[1], depth - 1)
+            v = gen_value(w, t[1], depth - 1) if t[1][0] != "any" else rng.choice(["k", "a", 1, 2, None, 1.5])     # Any elements: hashable atoms
             if not any(v == u for u in vals):
                 vals.append(v)
         return set(vals) if k == "set" else frozenset(vals)
@@ -908,3 +918,41 @@ def type_kinds(w, t, acc, seen=None):
             if f.type is not None:
                 type_kinds(w, f.type, acc, seen)
     return acc
+
+
+def grid_types(w: World):
+    """A deterministic grid of type expressions of depth <= 2: every outer constructor (in every spelling) around every inner
+    type -- every leaf kind, every class of the world, and every container of Any elements in every spelling INCLUDING the bare
+    ones (`list`, `typing.Dict`, `collections.abc.Mapping`, ...).  Pairwise interactions of constructors are thereby exercised on
+    every run, whatever the seed."""
+    any_ = ("any",)
+    leaves = [any_, ("prim", "int"), ("prim", "str"), ("prim", "bytes"), ("prim", "bool"), ("prim", "float"), ("enum", 0), ("enum", 1),
+              ("lit", [1, "a"]), ("lit", [None, True])] + [("class", c) for c in range(len(w.specs))]
+    bare = [("list", any_, sp) for sp in range(8)] + [("tuphom", any_, sp) for sp in range(4)] + [("set", any_, sp) for sp in range(6)] + \
+           [("fset", any_, sp) for sp in range(4)] + [("dict", any_, any_, sp) for sp in range(9)] + [("tuple", [any_, any_]), ("tuple", [])]
+    inners = leaves + bare
+    hashable = lambda t: w.type_hashable(t)
+    out = []
+    for inner in inners:
+        out.append(inner)
+        for sp in range(4):
+            out.append(("list", inner, sp))
+        for sp in range(2):
+            out.append(("tuphom", inner, sp))
+        out.append(("tuple", [inner, ("prim", "int")]))
+        out.append(("tuple", [inner]))
+        if inner[0] != "any" and hashable(inner):
+            for sp in range(3):
+                out.append(("set", inner, sp))
+            for sp in range(2):
+                out.append(("fset", inner, sp))
+            out.append(("dict", inner, ("prim", "int"), 0))
+        for sp in range(4):
+            out.append(("dict", ("prim", "str"), inner, sp))
+        if inner[0] not in ("opt", "any"):
+            out.append(("opt", inner))
+        if inner[0] not in ("any", "opt", "lit", "annot"):
+            out.append(("newtype", 30 + len(out) % 9, inner))
+        if inner[0] not in ("annot", "any"):
+            out.append(("annot", inner))
+    return out
